@@ -220,3 +220,48 @@ Example C06_names_reading :
   [ (IP4 3232235521, named 7, ex_ent); (IP4 3232235522, nent0, ex_ent) ].
 Proof. exact ex_llmnr_asymmetry. Qed.
 Print Assumptions C06_names_reading.
+
+(* ---- whole histories: sequences, hence multisets ----
+   For every disciplined history from NewSession and every address, the SEQUENCE of notifications about that address
+   emitted over the whole history is exactly the sequence of transitions the reference run owes it: no duplicate, no
+   loss, nothing else. [dues] concatenates [due] along the reference run. *)
+Theorem C06_history_sequence : forall c now s0 us,
+  own_mac c <> rt_mac c -> new_session c now = Ok s0 -> units_ok c s0 us ->
+  forall x, about x (concat (emissions c s0 us)) = dues c (rinit c now) us x.
+Proof. exact history_sequence_proof. Qed.
+Print Assumptions C06_history_sequence.
+
+Theorem C06_history_count : forall c now s0 us,
+  own_mac c <> rt_mac c -> new_session c now = Ok s0 -> units_ok c s0 us ->
+  forall x b, List.length (filter (fun p => ip_eqb (fst p) x && Bool.eqb (snd p) b) (concat (emissions c s0 us))) =
+              List.length (filter (fun p => Bool.eqb (snd p) b) (dues c (rinit c now) us x)).
+Proof. exact history_count_proof. Qed.
+Print Assumptions C06_history_count.
+
+(* ---- outside the discipline ----
+   Notify called twice with the same Frame: the second call emits nothing and changes nothing, in every state (also
+   through the DHCP path, also when the channel was full) -- no duplicate. *)
+Theorem C06_notify_twice : forall f s, notify f (notify f s) = notify f s.
+Proof. exact notify_twice_proof. Qed.
+Print Assumptions C06_notify_twice.
+
+Theorem C06_notify_twice_step : forall c s, snd (step c s Notify) = ONone ->
+  fst (step c (fst (step c s Notify)) Notify) = fst (step c s Notify) \/ lastf (fst (step c s Notify)) = None.
+Proof. exact notify_twice_step. Qed.
+Print Assumptions C06_notify_twice_step.
+
+(* The full channel: sendNotification drops (it never blocks under the lock) and makeOffline has already cleared the
+   pending mark, so the offline transition is reported by no later step: with an undrained channel "none is lost" is
+   FALSE of the faithful model and of the code (kind t6n replays it).  The clause holds under the property's own
+   hypothesis that the caller drains the channel (C06_exactly_once: [J] keeps the channel empty between units and a
+   unit emits fewer than 128 notifications); not a finding. *)
+Theorem C06_full_channel_drops : forall n s, List.length (chan s) = chan_cap -> send n s = s.
+Proof. exact full_channel_drops_proof. Qed.
+Print Assumptions C06_full_channel_drops.
+
+Theorem C06_none_lost_without_drain_refuted : forall k s h,
+  List.length (chan s) = chan_cap -> hlookup k (hosts s) = Some h ->
+  let s' := make_offline k s in
+  chan s' = chan s /\ exists h', hlookup k (hosts s') = Some h' /\ h_online h' = false /\ h_dirty h' = false.
+Proof. exact full_channel_loses_offline_proof. Qed.
+Print Assumptions C06_none_lost_without_drain_refuted.
